@@ -117,4 +117,29 @@ def handlePrologue (args : List String) : String :=
     | none => "E"
   | none => "bad-args"
 
+/-- `gtreefromswc kind=text|bytes|path name=<path> read=ok|<exception class> fdf=ok|<exception class>`: the generated `Tree.from_swc` with
+`read_swc` / `from_data_frame` stubs that return or raise as told, `abspath s = "ABS(" ++ s ++ ")"` →
+`ok source=<source handed to from_data_frame>` / `error <kind> msg=<template>` / `E` -/
+def handleTreeFromSwc (args : List String) : String :=
+  match Proto.arg args "kind", Proto.arg args "name", Proto.arg args "read", Proto.arg args "fdf" with
+  | some kind, some name, some rd, some fdf =>
+    let src : Py.Src := if kind = "text" then .text 1 "utf-8" else if kind = "bytes" then .bytes 1 else .path name
+    let readStub : Py.Src → Unit → Except Py.Exc (Int × Int) := fun _ _ => if rd = "ok" then .ok (1, 2) else .error ⟨rd, "stub", []⟩
+    let fdfStub : Int → String → Int → Except Py.Exc String := fun _ s _ => if fdf = "ok" then .ok s else .error ⟨fdf, "stub", []⟩
+    match tree_from_swc readStub fdfStub (fun s => "ABS(" ++ s ++ ")") src () with
+    | some (.ok s) => s!"ok source={s}"
+    | some (.error e) => s!"error {e.kind} msg={e.msg}"
+    | none => "E"
+  | _, _, _, _ => "bad-args"
+
+/-- `gtreefromeswc extra=None|_|a,b,…` → `extras=<the extra_cols from_eswc hands to from_swc>` / `E` -/
+def handleTreeFromEswc (args : List String) : String :=
+  match Proto.arg args "extra" with
+  | some extra =>
+    let xs : Option (List String) := if extra = "None" then none else some (if extra = "_" then [] else extra.splitOn ",")
+    match from_eswc_extras xs with
+    | some (ex, _) => s!"extras={",".intercalate ex}"
+    | none => "E"
+  | none => "bad-args"
+
 end AlgoRun
